@@ -56,7 +56,7 @@ func (s *opsState) absorb(op, c, num string) {
 		if op == "CutChat" {
 			delta = canon(delta, bye, chat)
 		}
-		if op == "AuthRace" && cl == c && s.race != "" {
+		if (op == "AuthRace" || op == "AuthRaceRm") && cl == c && s.race != "" {
 			// the live line may overtake the replay anywhere; exactly once is what matters. Canonical place: after the first replay frame.
 			cnt, rest := 0, []string{}
 			for _, f := range delta {
@@ -334,6 +334,23 @@ func RunOperators(behs [][]Step, tr *Trace, env Env, sum *Summary) {
 					s.settle(60 * time.Millisecond)
 					verifhook.Hook = nil
 					s.race = "chat" + num
+				case "AuthRaceRm":
+					// the same correct first message; from inside the replay (after its first frame) operator x removes the "ext" listener
+					frames := 0
+					verifhook.Hook = func(name string) {
+						if name == "ops.replay.frame" {
+							frames++
+							if frames == 2 {
+								s.cl[x].Send(fmt.Sprintf(`{"Head":{"Event":%d,"User":"%s"},"Body":{"SubEvent":%d,"Info":{"Name":"ext","VerifReq":"1"}}}`, packager.Type.Listener.Type, opUsers[x][0], packager.Type.Listener.Remove))
+								s.waitFor(x, func(l []string) bool { return has(l, "lsnrm:ext") })
+							}
+						}
+					}
+					s.cl[c].Send(authMessage(c, "good"))
+					s.waitFor(c, func(l []string) bool { return has(l, "authok") && has(l, "lsnrm:ext") })
+					s.settle(60 * time.Millisecond)
+					verifhook.Hook = nil
+					s.race = "lsnrm:ext"
 				case "Auth":
 					if x == "impersonate" {
 						victim := opUsers[c][0]
